@@ -55,7 +55,10 @@ def case_strategy(draw):
         for d in ("in", "out"):
             for v in t[d]:
                 v["via"] = draw(st.sampled_from(["packet", "process",
-                                                 "struct"]))
+                                                 "struct", "override"]))
+                if v["via"] == "override":
+                    v["mapped"] = draw(st.sampled_from(
+                        "BH" if isinstance(v["size"], int) else "BHIQ"))
         t["struct_off"] = [draw(st.integers(0, 3)), draw(st.integers(0, 3))]
         terms.append(t)
     cands = [(ti, d, v["name"]) for ti, t in enumerate(terms)
@@ -102,6 +105,11 @@ def make_terminal(ec, spec, index):
                 idx = (0x6000 if direction == "in" else 0x7000) + 0x10 * k
                 ns[v["name"]] = ProcessDesc(idx, 1)
                 pdos[idx, 1] = (sm, p, v["size"])
+            elif v["via"] == "override":
+                # the mapping says v["mapped"], the descriptor knows better
+                idx = (0x6000 if direction == "in" else 0x7000) + 0x10 * k
+                ns[v["name"]] = ProcessDesc(idx, 1, v["size"])
+                pdos[idx, 1] = (sm, p, v["mapped"])
             else:
                 if p - shift < 0:
                     ns[v["name"]] = PacketDesc(sm, p, v["size"])
